@@ -3,7 +3,9 @@
    Lemmas for Props/C01.v and the last two theorems of Props/C03.v.
 
    Route: (1) sources; (2) the sequential engine is the parallel one on a single partition;
-   (3) node-level partition independence; (4) a simulation relation `chain_sim` between a
+   (3) node-level partition independence, for the three order classes of Engine/Static.v (E, P and
+   D: GroupByKey on rows known only as a multiset, lifted combines and order-insensitive
+   element-wise operators on its groups); (4) a simulation relation `chain_sim` between a
    classified chain and a rewritten chain (identity, fusion of element-wise blocks, lifting of
    GroupByKey + lifted combine) and its soundness for the partition loop; (5) plans: linear and
    join-shaped, any two execution modes; (6) the optimiser produces a `chain_sim`-related chain. *)
@@ -170,18 +172,192 @@ Qed.
 
 (* ================= (3) node-level partition independence ================= *)
 
-Lemma rel_perm : forall c a b, rel c a b -> Permutation a b.
-Proof. intros [|] a b H; cbn [rel] in H; [subst; apply Permutation_refl|exact H]. Qed.
+(* ---- row_perm: equal rows, or grouped rows whose value lists are permutations ---- *)
+Lemma row_perm_refl : forall x, row_perm x x.
+Proof. intros x. left. reflexivity. Qed.
+
+Lemma row_perm_sym : forall x y, row_perm x y -> row_perm y x.
+Proof.
+  intros x y [Heq|(k & l & l' & Hx & Hy & Hp)]; [left; symmetry; exact Heq|].
+  right. exists k, l', l. split; [exact Hy|]. split; [exact Hx|]. apply Permutation_sym. exact Hp.
+Qed.
+
+Lemma row_perm_trans : forall x y z, row_perm x y -> row_perm y z -> row_perm x z.
+Proof.
+  intros x y z [Heq|(k & l & l' & Hx & Hy & Hp)] H2; [subst y; exact H2|].
+  destruct H2 as [Heq2|(k2 & l2 & l2' & Hy2 & Hz & Hp2)].
+  - subst z. right. exists k, l, l'. auto.
+  - rewrite Hy in Hy2. injection Hy2 as Hk Hl. subst k2 l2.
+    right. exists k, l, l2'. split; [exact Hx|]. split; [exact Hz|].
+    eapply Permutation_trans; eassumption.
+Qed.
+
+Lemma row_perm_groups : forall k l l', Permutation l l' ->
+    row_perm (VPair k (VList l)) (VPair k (VList l')).
+Proof. intros k l l' Hp. right. exists k, l, l'. auto. Qed.
+
+(* the pattern-matching reading of row_perm *)
+Lemma row_perm_spec : forall x y,
+    row_perm x y <->
+    match x, y with
+    | VPair k (VList l), VPair k' (VList l') => k = k' /\ Permutation l l'
+    | _, _ => x = y
+    end.
+Proof.
+  intros x y. split.
+  - intros [Heq|(k & l & l' & Hx & Hy & Hp)].
+    + subst y. destruct x as [z|a b|l0| |v]; try reflexivity.
+      destruct b as [z|b1 b2|l0| |v]; try reflexivity.
+      split; [reflexivity|apply Permutation_refl].
+    + subst x y. split; [reflexivity|exact Hp].
+  - destruct x as [z|a b|l0| |v]; try (intros H; left; exact H).
+    destruct b as [z|b1 b2|l0| |v]; try (intros H; left; exact H).
+    destruct y as [z|a' b'|l1| |v]; try (intros H; left; exact H).
+    destruct b' as [z|b1 b2|l1| |v]; try (intros H; left; exact H).
+    intros [Hk Hp]. subst a'. apply row_perm_groups. exact Hp.
+Qed.
+
+Lemma row_perm_fst : forall x y, row_perm x y -> vfst x = vfst y.
+Proof.
+  intros x y [Heq|(k & l & l' & Hx & Hy & Hp)]; [subst y; reflexivity|]. subst x y. reflexivity.
+Qed.
+
+Lemma row_perm_vals : forall x y, row_perm x y ->
+    Permutation (vlist (vsnd x)) (vlist (vsnd y)).
+Proof.
+  intros x y [Heq|(k & l & l' & Hx & Hy & Hp)]; [subst y; apply Permutation_refl|].
+  subst x y. cbn [vsnd vlist]. exact Hp.
+Qed.
+
+Lemma rows_perm_refl : forall a, Forall2 row_perm a a.
+Proof. induction a as [|x a IH]; constructor; [apply row_perm_refl|exact IH]. Qed.
+
+Lemma rows_perm_sym : forall a b, Forall2 row_perm a b -> Forall2 row_perm b a.
+Proof.
+  intros a b H. induction H as [|x y a b Hxy Hab IH]; constructor;
+    [apply row_perm_sym; exact Hxy|exact IH].
+Qed.
+
+Lemma rows_perm_trans : forall a b d,
+    Forall2 row_perm a b -> Forall2 row_perm b d -> Forall2 row_perm a d.
+Proof.
+  intros a b d H. revert d. induction H as [|x y a b Hxy Hab IH]; intros d Hd.
+  - inversion Hd; subst. constructor.
+  - inversion Hd as [|y0 z b0 d0 Hyz Hbd]; subst. constructor.
+    + eapply row_perm_trans; eassumption.
+    + apply IH. exact Hbd.
+Qed.
+
+Lemma rows_perm_fst : forall a b, Forall2 row_perm a b -> map vfst a = map vfst b.
+Proof.
+  intros a b H. induction H as [|x y a b Hxy Hab IH]; cbn [map]; [reflexivity|].
+  rewrite (row_perm_fst x y Hxy), IH. reflexivity.
+Qed.
+
+(* ---- class D: a multiset of rows, each up to row_perm ---- *)
+Lemma relD_of_perm : forall a b, Permutation a b -> rel D a b.
+Proof. intros a b H. exists b. split; [exact H|apply rows_perm_refl]. Qed.
+
+Lemma relD_of_rows : forall a b, Forall2 row_perm a b -> rel D a b.
+Proof. intros a b H. exists a. split; [apply Permutation_refl|exact H]. Qed.
+
+Lemma relD_refl : forall a, rel D a a.
+Proof. intros a. apply relD_of_perm. apply Permutation_refl. Qed.
+
+Lemma relD_perm_l : forall a a0 b, Permutation a a0 -> rel D a0 b -> rel D a b.
+Proof.
+  intros a a0 b Hp (a' & Hp' & Hf). exists a'. split; [|exact Hf].
+  eapply Permutation_trans; eassumption.
+Qed.
+
+Lemma relD_sym : forall a b, rel D a b -> rel D b a.
+Proof.
+  intros a b (a' & Hp & Hf).
+  destruct (Permutation_Forall2 (Permutation_sym Hp) Hf) as (b' & Hpb & Hfb).
+  exists b'. split; [exact Hpb|apply rows_perm_sym; exact Hfb].
+Qed.
+
+Lemma relD_trans : forall a b d, rel D a b -> rel D b d -> rel D a d.
+Proof.
+  intros a b d (a' & Hpa & Hfa) (b' & Hpb & Hfb).
+  destruct (Permutation_Forall2 Hpb (rows_perm_sym _ _ Hfa)) as (a'' & Hpa' & Hfa').
+  exists a''. split; [eapply Permutation_trans; eassumption|].
+  eapply rows_perm_trans; [apply rows_perm_sym; exact Hfa'|exact Hfb].
+Qed.
+
+Lemma relD_app : forall a1 b1 a2 b2, rel D a1 b1 -> rel D a2 b2 -> rel D (a1 ++ a2) (b1 ++ b2).
+Proof.
+  intros a1 b1 a2 b2 (a1' & Hp1 & Hf1) (a2' & Hp2 & Hf2). exists (a1' ++ a2').
+  split; [apply Permutation_app; assumption|apply Forall2_app; assumption].
+Qed.
+
+Lemma relD_flat_map : forall (G : val -> list val) a b,
+    (forall x y, row_perm x y -> rel D (G x) (G y)) -> rel D a b ->
+    rel D (flat_map G a) (flat_map G b).
+Proof.
+  intros G a b HG (a' & Hp & Hf).
+  apply (relD_perm_l _ (flat_map G a')); [apply Permutation_flat_map; exact Hp|].
+  clear Hp. induction Hf as [|x y a' b Hxy Hab IH]; cbn [flat_map]; [apply relD_refl|].
+  apply relD_app; [apply HG; exact Hxy|exact IH].
+Qed.
+
+Lemma relD_flat_map_perm : forall (G : val -> list val) a b,
+    (forall x y, row_perm x y -> Permutation (G x) (G y)) -> rel D a b ->
+    Permutation (flat_map G a) (flat_map G b).
+Proof.
+  intros G a b HG (a' & Hp & Hf).
+  eapply Permutation_trans; [apply Permutation_flat_map; exact Hp|].
+  clear Hp. induction Hf as [|x y a' b Hxy Hab IH]; cbn [flat_map]; [apply Permutation_refl|].
+  apply Permutation_app; [apply HG; exact Hxy|exact IH].
+Qed.
+
+(* what a lifted combine reads from grouped rows is the same for D-related inputs *)
+Lemma relD_keys : forall a b k, rel D a b -> (In k (map vfst a) <-> In k (map vfst b)).
+Proof.
+  intros a b k (a' & Hp & Hf). rewrite <- (rows_perm_fst a' b Hf).
+  split; apply Permutation_in; apply Permutation_map; [|apply Permutation_sym]; exact Hp.
+Qed.
+
+Lemma relD_group_values : forall k a b, rel D a b ->
+    Permutation (concat (map vlist (values_of k a))) (concat (map vlist (values_of k b))).
+Proof.
+  intros k a b (a' & Hp & Hf).
+  eapply Permutation_trans;
+    [apply perm_concat; apply Permutation_map; apply values_of_perm; exact Hp|].
+  clear Hp. unfold values_of. induction Hf as [|x y a' b Hxy Hab IH]; cbn [filter]; [apply Permutation_refl|].
+  rewrite (row_perm_fst x y Hxy). destruct (val_eqb (vfst y) k); [|exact IH].
+  cbn [map concat]. apply Permutation_app; [apply row_perm_vals; exact Hxy|exact IH].
+Qed.
+
+(* ---- the three classes ---- *)
+Lemma rel_perm : forall c a b, flat c -> rel c a b -> Permutation a b.
+Proof.
+  intros [| |] a b Hfl H; cbn [rel flat] in *; [subst; apply Permutation_refl|exact H|contradiction].
+Qed.
+Lemma rel_relD : forall c a b, rel c a b -> rel D a b.
+Proof.
+  intros [| |] a b H; cbn [rel] in H; [subst; apply relD_refl|apply relD_of_perm; exact H|exact H].
+Qed.
 Lemma rel_refl : forall c a, rel c a a.
-Proof. intros [|] a; cbn [rel]; [reflexivity|apply Permutation_refl]. Qed.
+Proof. intros [| |] a; [reflexivity|apply Permutation_refl|apply relD_refl]. Qed.
 Lemma rel_sym : forall c a b, rel c a b -> rel c b a.
-Proof. intros [|] a b H; cbn [rel] in *; [congruence|apply Permutation_sym; exact H]. Qed.
+Proof.
+  intros [| |] a b H; [cbn [rel] in *; congruence|apply Permutation_sym; exact H
+                       |apply relD_sym; exact H].
+Qed.
+Lemma rel_trans : forall c a b d, rel c a b -> rel c b d -> rel c a d.
+Proof.
+  intros [| |] a b d H1 H2;
+    [cbn [rel] in *; congruence|eapply Permutation_trans; eassumption
+     |eapply relD_trans; eassumption].
+Qed.
 Lemma rel_of_eq : forall c a b, a = b -> rel c a b.
 Proof. intros c a b ->. apply rel_refl. Qed.
 Lemma rel_flat_map : forall c (G : val -> list val) a b,
-    rel c a b -> rel c (flat_map G a) (flat_map G b).
+    flat c -> rel c a b -> rel c (flat_map G a) (flat_map G b).
 Proof.
-  intros [|] G a b H; cbn [rel] in *; [congruence|]. exact (Permutation_flat_map G H).
+  intros [| |] G a b Hfl H; cbn [rel flat] in *; [congruence| |contradiction].
+  exact (Permutation_flat_map G H).
 Qed.
 
 (* two partition lists carrying the same rows (up to the order class), all of element type t *)
@@ -226,6 +402,79 @@ Proof.
   cbn [oall map snd]. rewrite HG. cbn [obind]. rewrite (IH H2). reflexivity.
 Qed.
 
+(* blocks on class-D rows *)
+Lemma ew_dd_ew : forall o, ew_dd o -> ew o.
+Proof. intros o (g & Hg & _). exists g. exact Hg. Qed.
+Lemma ew_dp_ew : forall o, ew_dp o -> ew o.
+Proof. intros o (g & Hg & _). exists g. exact Hg. Qed.
+
+(* the row-by-row flavour of the D -> D side condition *)
+Lemma ew_dd_rowwise : forall o g, ew_fn o g ->
+    (forall x y, row_perm x y -> Forall2 row_perm (g x) (g y)) -> ew_dd o.
+Proof. intros o g Hg H. exists g. split; [exact Hg|]. intros x y Hxy. apply relD_of_rows. auto. Qed.
+(* an operator that maps related rows to the same multiset is also class-D preserving *)
+Lemma ew_dp_dd : forall o, ew_dp o -> ew_dd o.
+Proof.
+  intros o (g & Hg & H). exists g. split; [exact Hg|]. intros x y Hxy. apply relD_of_perm. auto.
+Qed.
+
+Lemma ew_dd_ops_sem : forall ops t t',
+    Forall ew_dd ops -> tags_ok t ops = Some t' ->
+    exists G, (forall l, apply_ops ops (t, l) = Ok (t', flat_map G l)) /\
+              (forall x y, row_perm x y -> rel D (G x) (G y)).
+Proof.
+  induction ops as [|o r IH]; intros t t' Hew Htags.
+  - cbn [tags_ok] in Htags. injection Htags as <-. exists (fun x => [x]). split.
+    + intros l. cbn [apply_ops]. rewrite flat_map_single, map_id. reflexivity.
+    + intros x y Hxy. apply relD_of_rows. constructor; [exact Hxy|constructor].
+  - inversion Hew as [|o' r' (g & Hg & Hinv) Hr]; subst.
+    cbn [tags_ok] in Htags. destruct (Nat.eqb t (op_in o)) eqn:Ht; [|discriminate].
+    destruct (IH _ _ Hr Htags) as (G' & HG' & Hinv').
+    exists (fun x => flat_map G' (g x)). split.
+    + intros l. cbn [apply_ops]. unfold apply_op. cbn [fst snd]. rewrite Ht, Hg. cbn [obind].
+      rewrite HG', flat_map_flat_map. reflexivity.
+    + intros x y Hxy. apply relD_flat_map; [exact Hinv'|apply Hinv; exact Hxy].
+Qed.
+
+Lemma ew_dp_ops_sem : forall ops1 o ops2 t t',
+    Forall ew_dd ops1 -> ew_dp o -> Forall ew ops2 ->
+    tags_ok t (ops1 ++ o :: ops2) = Some t' ->
+    exists G, (forall l, apply_ops (ops1 ++ o :: ops2) (t, l) = Ok (t', flat_map G l)) /\
+              (forall x y, row_perm x y -> Permutation (G x) (G y)).
+Proof.
+  induction ops1 as [|o1 r IH]; intros o ops2 t t' Hdd (g & Hg & Hinv) Hew Htags.
+  - cbn [app] in *. cbn [tags_ok] in Htags.
+    destruct (Nat.eqb t (op_in o)) eqn:Ht; [|discriminate].
+    destruct (ew_ops_sem ops2 _ _ Hew Htags) as [G2 HG2].
+    exists (fun x => flat_map G2 (g x)). split.
+    + intros l. cbn [apply_ops]. unfold apply_op. cbn [fst snd]. rewrite Ht, Hg. cbn [obind].
+      rewrite HG2, flat_map_flat_map. reflexivity.
+    + intros x y Hxy. apply Permutation_flat_map. apply Hinv. exact Hxy.
+  - inversion Hdd as [|o' r' (g1 & Hg1 & Hinv1) Hr]; subst.
+    cbn [app] in *. cbn [tags_ok] in Htags.
+    destruct (Nat.eqb t (op_in o1)) eqn:Ht; [|discriminate].
+    destruct (IH o ops2 _ _ Hr (ex_intro _ g (conj Hg Hinv)) Hew Htags) as (G' & HG' & Hinv').
+    exists (fun x => flat_map G' (g1 x)). split.
+    + intros l. cbn [apply_ops]. unfold apply_op. cbn [fst snd]. rewrite Ht, Hg1. cbn [obind].
+      rewrite HG', flat_map_flat_map. reflexivity.
+    + intros x y Hxy. apply relD_flat_map_perm; [exact Hinv'|apply Hinv1; exact Hxy].
+Qed.
+
+(* every classified Stateless node is a well-tagged block of element-wise operators *)
+Lemma node_stateless_ew : forall t c ops t' c',
+    node_cls t c (BStateless ops) t' c' -> Forall ew ops /\ tags_ok t ops = Some t'.
+Proof.
+  intros t c ops t' c' H. inversion H as [t0 c0 ops0 t0' Hfl Hew Htags
+                                          | t0 ops0 t0' Hdd Htags
+                                          | t0 ops1 o ops2 t0' Hdd Hdp Hew Htags
+                                          | | | | | ]; subst.
+  - split; assumption.
+  - split; [|exact Htags]. eapply Forall_impl; [apply ew_dd_ew|exact Hdd].
+  - split; [|exact Htags]. apply Forall_app. split.
+    + eapply Forall_impl; [apply ew_dd_ew|exact Hdd].
+    + constructor; [apply ew_dp_ew; exact Hdp|exact Hew].
+Qed.
+
 Lemma check_tags_tagged_map : forall t (f : part -> list val) (ps : list part),
     check_tags t (map (fun p => (t, f p)) ps) = true.
 Proof.
@@ -256,6 +505,61 @@ Proof.
   - assert (Hkx : In (vfst x) (map vfst L1)) by (apply Hk; apply in_map; exact Hin).
     apply in_map_iff in Hkx. destruct Hkx as (g1 & Hg1 & Hin1).
     rewrite <- (Hdet g1 x Hin1 Hin Hg1). exact Hin1.
+Qed.
+
+(* the class-D analogue: per key, the two outputs are related rows *)
+Lemma keyed_rowperm : forall (L2 L1 : list val),
+    NoDup (map vfst L1) -> NoDup (map vfst L2) ->
+    (forall k, In k (map vfst L1) <-> In k (map vfst L2)) ->
+    (forall g1 g2, In g1 L1 -> In g2 L2 -> vfst g1 = vfst g2 -> row_perm g1 g2) ->
+    rel D L1 L2.
+Proof.
+  induction L2 as [|g2 r2 IH]; intros L1 Hn1 Hn2 Hk Hdet.
+  - destruct L1 as [|g1 r1]; [apply relD_refl|].
+    exfalso. apply (proj1 (Hk (vfst g1))). cbn [map In]. left. reflexivity.
+  - cbn [map] in Hn2. inversion Hn2 as [|k0 ks0 Hnotin2 Hn2']; subst.
+    assert (Hin : In (vfst g2) (map vfst L1)) by (apply Hk; cbn [map In]; left; reflexivity).
+    apply in_map_iff in Hin. destruct Hin as (g1 & Hg1 & Hin1).
+    apply in_split in Hin1. destruct Hin1 as (u & v & HL1). subst L1.
+    rewrite map_app in Hn1. cbn [map] in Hn1.
+    pose proof (NoDup_remove_1 _ _ _ Hn1) as Hn1'. pose proof (NoDup_remove_2 _ _ _ Hn1) as Hnotin1.
+    rewrite <- map_app in Hn1', Hnotin1.
+    assert (Hrest : rel D (u ++ v) r2).
+    { apply IH; [exact Hn1'|exact Hn2'| |].
+      - intros k. split; intros Hkin.
+        + assert (Hk2 : In k (map vfst (g2 :: r2))).
+          { apply Hk. rewrite map_app in *. cbn [map]. apply in_app_iff in Hkin.
+            apply in_app_iff. destruct Hkin as [H|H]; [left; exact H|right; right; exact H]. }
+          cbn [map In] in Hk2. destruct Hk2 as [He|H]; [|exact H].
+          exfalso. apply Hnotin1. rewrite Hg1, He. exact Hkin.
+        + assert (Hk1 : In k (map vfst (u ++ g1 :: v))) by (apply Hk; cbn [map In]; right; exact Hkin).
+          rewrite map_app in Hk1. cbn [map] in Hk1. apply in_app_iff in Hk1.
+          rewrite map_app. apply in_app_iff.
+          destruct Hk1 as [H|[He|H]]; [left; exact H| |right; exact H].
+          exfalso. apply Hnotin2. rewrite <- Hg1, He. exact Hkin.
+      - intros x y Hx Hy Hxy. apply Hdet; [|right; exact Hy|exact Hxy].
+        apply in_app_iff in Hx. apply in_app_iff.
+        destruct Hx as [H|H]; [left; exact H|right; right; exact H]. }
+    destruct Hrest as (a'' & Hp & Hf). exists (g1 :: a''). split.
+    + apply Permutation_sym. apply Permutation_cons_app. apply Permutation_sym. exact Hp.
+    + constructor; [|exact Hf].
+      apply Hdet; [apply in_app_iff; right; left; reflexivity|left; reflexivity|exact Hg1].
+Qed.
+
+(* GroupByKey on rows known as a multiset: the groups as a multiset, each group's values as a
+   multiset *)
+Lemma gbk_from_perm : forall sh sh' i j ps qs,
+    perm_oracle sh -> perm_oracle sh' -> Permutation (concat ps) (concat qs) ->
+    rel D (gbk_merge sh i (map gbk_local ps)) (gbk_merge sh' j (map gbk_local qs)).
+Proof.
+  intros sh sh' i j ps qs Hsh Hsh' Hp. apply keyed_rowperm.
+  - apply gbk_keys_unique. exact Hsh.
+  - apply gbk_keys_unique. exact Hsh'.
+  - intros k. rewrite (gbk_keys_exact sh i ps k Hsh), (gbk_keys_exact sh' j qs k Hsh').
+    split; apply Permutation_in; apply Permutation_map; [|apply Permutation_sym]; exact Hp.
+  - intros g1 g2 H1 H2 Hk.
+    rewrite (gbk_groups_exact sh i ps g1 Hsh H1), (gbk_groups_exact sh' j qs g2 Hsh' H2), Hk.
+    apply row_perm_groups. apply values_of_perm. exact Hp.
 Qed.
 
 Lemma cvl_keys_exact : forall (sh : nat -> list val -> list val) (A : Type)
@@ -305,22 +609,25 @@ Section PerKey.
       eapply Hinv; [|exact S1]. apply values_of_perm. exact Hp.
   Qed.
 
+  (* the lifted local reads, per key, the concatenation of that key's groups *)
   Lemma cv_groups_perm : forall i j ps qs,
-      Permutation (concat ps) (concat qs) ->
+      (forall k, In k (map vfst (concat ps)) <-> In k (map vfst (concat qs))) ->
+      (forall k, Permutation (concat (map vlist (values_of k (concat ps))))
+                             (concat (map vlist (values_of k (concat qs))))) ->
       Permutation (cv_merge sh A c i (map (cv_local_groups A c) ps))
                   (cv_merge sh' A c j (map (cv_local_groups A c) qs)).
   Proof.
-    intros i j ps qs Hp. apply keyed_perm.
+    intros i j ps qs Hkeys Hvals. apply keyed_perm.
     - apply cvl_keys_unique. exact Hsh.
     - apply cvl_keys_unique. exact Hsh'.
     - intros k. rewrite (cvl_keys_exact sh A c i ps k Hsh), (cvl_keys_exact sh' A c j qs k Hsh').
-      split; apply Permutation_in; apply Permutation_map; [|apply Permutation_sym]; exact Hp.
+      apply Hkeys.
     - intros g1 g2 H1 H2 Hk.
       destruct (cvl_value sh A c R spec i ps g1 Hsh L H1) as (o1 & E1 & S1).
       destruct (cvl_value sh' A c R spec j qs g2 Hsh' L H2) as (o2 & E2 & S2).
       rewrite E1, E2, Hk. f_equal. rewrite Hk in S1.
       apply (Hfun (concat (map vlist (values_of (vfst g2) (concat qs))))); [|exact S2].
-      eapply Hinv; [|exact S1]. apply group_values_perm. exact Hp.
+      eapply Hinv; [|exact S1]. apply Hvals.
   Qed.
 End PerKey.
 
@@ -334,34 +641,58 @@ Lemma node_partition_independent_good : forall sh sh' i j t c b t' c' ps qs,
       par_bnode sh i b ps = Ok ps' /\ par_bnode sh' j b qs = Ok qs' /\ good t' c' ps' qs'.
 Proof.
   intros sh sh' i j t c b t' c' ps qs Hsh Hsh' Hcls (Hps & Hqs & Hrel).
-  destruct Hcls as [t c ops t' Hew Htags | t t' | t c cb tg t' Hlaw | t c cb tp t' Hlaw
-                    | t c cb lifted t' fanout Hlaw].
+  destruct Hcls as [t c ops t' Hfl Hew Htags | t ops t' Hdd Htags
+                    | t ops1 o ops2 t' Hdd Hdp Hew Htags | t t' | t t'
+                    | t c cb tg t' Hfl Hlaw | t c cb tp t' Hlaw
+                    | t c cb lifted t' fanout Hfl Hlaw].
   - (* element-wise block *)
     destruct (ew_ops_sem ops t t' Hew Htags) as [G HG].
     eexists. eexists. cbn [par_bnode].
     rewrite (par_stateless_sem ops t t' G ps HG Hps), (par_stateless_sem ops t t' G qs HG Hqs).
     split; [reflexivity|]. split; [reflexivity|].
     unfold good. rewrite !check_tags_tagged_map, !concat_tagged_map.
-    split; [reflexivity|]. split; [reflexivity|]. apply rel_flat_map. exact Hrel.
-  - (* GroupByKey *)
+    split; [reflexivity|]. split; [reflexivity|]. apply rel_flat_map; [exact Hfl|exact Hrel].
+  - (* class-D preserving block *)
+    destruct (ew_dd_ops_sem ops t t' Hdd Htags) as (G & HG & Hinv).
+    eexists. eexists. cbn [par_bnode].
+    rewrite (par_stateless_sem ops t t' G ps HG Hps), (par_stateless_sem ops t t' G qs HG Hqs).
+    split; [reflexivity|]. split; [reflexivity|].
+    unfold good. rewrite !check_tags_tagged_map, !concat_tagged_map.
+    split; [reflexivity|]. split; [reflexivity|]. apply relD_flat_map; [exact Hinv|exact Hrel].
+  - (* block that forgets the order inside the groups *)
+    destruct (ew_dp_ops_sem ops1 o ops2 t t' Hdd Hdp Hew Htags) as (G & HG & Hinv).
+    eexists. eexists. cbn [par_bnode].
+    rewrite (par_stateless_sem _ t t' G ps HG Hps), (par_stateless_sem _ t t' G qs HG Hqs).
+    split; [reflexivity|]. split; [reflexivity|].
+    unfold good. rewrite !check_tags_tagged_map, !concat_tagged_map.
+    split; [reflexivity|]. split; [reflexivity|]. cbn [rel].
+    apply relD_flat_map_perm; [exact Hinv|exact Hrel].
+  - (* GroupByKey on a determined sequence *)
     cbn [par_bnode]. unfold run_gbk. rewrite Hps, Hqs. cbn [omap_out obind].
     eexists. eexists. split; [reflexivity|]. split; [reflexivity|].
     apply good_single. cbn [rel] in *. rewrite !map_local_snd.
     apply gbk_partition_independent; assumption.
+  - (* GroupByKey on a multiset *)
+    cbn [par_bnode]. unfold run_gbk. rewrite Hps, Hqs. cbn [omap_out obind].
+    eexists. eexists. split; [reflexivity|]. split; [reflexivity|].
+    apply good_single. rewrite !map_local_snd.
+    apply gbk_from_perm; [exact Hsh|exact Hsh'|exact Hrel].
   - (* CombineValues on pairs *)
     destruct Hlaw as (R & spec & L & Hfun & Hinv).
     cbn [par_bnode]. unfold run_combine_values. rewrite Hps, Hqs. cbn [omap_out obind].
     eexists. eexists. split; [reflexivity|]. split; [reflexivity|].
     apply good_single. cbn [rel]. rewrite !map_local_snd.
     apply (cv_pairs_perm sh sh' Hsh Hsh' (vc_A cb) (vc_c cb) R spec L Hfun Hinv).
-    eapply rel_perm. exact Hrel.
-  - (* lifted CombineValues on grouped rows *)
+    eapply rel_perm; [exact Hfl|exact Hrel].
+  - (* lifted CombineValues on grouped rows, any class *)
     destruct Hlaw as (R & spec & L & Hfun & Hinv).
     cbn [par_bnode]. unfold run_combine_values. rewrite Hps, Hqs. cbn [omap_out obind].
     eexists. eexists. split; [reflexivity|]. split; [reflexivity|].
     apply good_single. cbn [rel]. rewrite !map_local_snd.
+    pose proof (rel_relD _ _ _ Hrel) as HrelD.
     apply (cv_groups_perm sh sh' Hsh Hsh' (vc_A cb) (vc_c cb) R spec L Hfun Hinv).
-    eapply rel_perm. exact Hrel.
+    + intros k. apply relD_keys. exact HrelD.
+    + intros k. apply relD_group_values. exact HrelD.
   - (* CombineGlobal *)
     destruct Hlaw as (R & spec & L & Hfun & Hinv). destruct cb as [A cmb]. cbn [vc_A vc_c] in *.
     destruct (cg_par_spec A cmb R spec lifted t t' fanout ps L Hps) as (o1 & E1 & S1).
@@ -370,7 +701,7 @@ Proof.
     eexists. eexists. split; [reflexivity|]. split; [reflexivity|].
     apply good_single. cbn [rel]. f_equal.
     apply (Hfun (concat (map snd qs))); [|exact S2].
-    eapply Hinv; [|exact S1]. eapply rel_perm. exact Hrel.
+    eapply Hinv; [|exact S1]. eapply rel_perm; [exact Hfl|exact Hrel].
 Qed.
 
 Lemma node_partition_independent : forall sh sh' i j t c b t' c' ps qs,
@@ -563,13 +894,13 @@ Inductive chain_sim : tag -> cls -> list bnode -> list bnode -> tag -> cls -> Pr
 | cs_nil : forall t c, chain_sim t c [] [] t c
 | cs_same : forall t c b t1 c1 r r' t2 c2,
     node_cls t c b t1 c1 -> chain_sim t1 c1 r r' t2 c2 -> chain_sim t c (b :: r) (b :: r') t2 c2
-| cs_fuse : forall t c ops t1 ops' r r' t2 c2,
-    Forall ew ops -> tags_ok t ops = Some t1 ->
-    chain_sim t1 c r (BStateless ops' :: r') t2 c2 ->
+| cs_fuse : forall t c ops t1 c1 ops' r r' t2 c2,
+    node_cls t c (BStateless ops) t1 c1 ->
+    chain_sim t1 c1 r (BStateless ops' :: r') t2 c2 ->
     chain_sim t c (BStateless ops :: r) (BStateless (ops ++ ops') :: r') t2 c2
-| cs_lift : forall a cb tg tout r r' t2 c2,
-    lawful_vcomb cb -> chain_sim tout P r r' t2 c2 ->
-    chain_sim a E (BGroupByKey a tg :: BCombineValues cb a tg tout true :: r)
+| cs_lift : forall a c cb tg tout r r' t2 c2,
+    flat c -> lawful_vcomb cb -> chain_sim tout P r r' t2 c2 ->
+    chain_sim a c (BGroupByKey a tg :: BCombineValues cb a tg tout true :: r)
               (BCombineValues cb a tg tout false :: r') t2 c2.
 
 Lemma chain_sim_refl : forall t c bs t' c', chain_cls t c bs t' c' -> chain_sim t c bs bs t' c'.
@@ -587,8 +918,8 @@ Lemma chain_sim_plain : forall t c bs bs' t' c',
 Proof.
   intros t c bs bs' t' c' H.
   induction H as [t c|t c b t1 c1 r r' t2 c2 Hn Hr [IH1 IH2]
-                  |t c ops t1 ops' r r' t2 c2 Hew Htags Hr [IH1 IH2]
-                  |a cb tg tout r r' t2 c2 Hlaw Hr [IH1 IH2]].
+                  |t c ops t1 c1 ops' r r' t2 c2 Hn Hr [IH1 IH2]
+                  |a c cb tg tout r r' t2 c2 Hfl Hlaw Hr [IH1 IH2]].
   - split; constructor.
   - pose proof (node_cls_plain _ _ _ _ _ Hn) as Hb. split; constructor; assumption.
   - inversion IH2 as [|? ? _ IH2']; subst. split; constructor; try exact I; assumption.
@@ -611,22 +942,21 @@ Lemma chain_sim_sound : forall sh sh', perm_oracle sh -> perm_oracle sh' ->
 Proof.
   intros sh sh' Hsh Hsh' t c bs bs' t' c' H.
   induction H as [t c|t c b t1 c1 r r' t2 c2 Hn Hr IH
-                  |t c ops t1 ops' r r' t2 c2 Hew Htags Hr IH
-                  |a cb tg tout r r' t2 c2 Hlaw Hr IH]; intros i j ps qs Hgood.
+                  |t c ops t1 c1 ops' r r' t2 c2 Hn Hr IH
+                  |a c cb tg tout r r' t2 c2 Hfl Hlaw Hr IH]; intros i j ps qs Hgood.
   - exists ps, qs. split; [reflexivity|]. split; [reflexivity|exact Hgood].
   - destruct (node_partition_independent_good sh sh' i j _ _ _ _ _ ps qs Hsh Hsh' Hn Hgood)
       as (ps1 & qs1 & E1 & E2 & G1).
     destruct (IH (next_site i b) (next_site j b) ps1 qs1 G1) as (ps' & qs' & F1 & F2 & G').
     exists ps', qs'. cbn [par_chain]. rewrite E1, E2. cbn [obind]. auto.
-  - assert (Hn : node_cls t c (BStateless ops) t1 c) by (apply nc_stateless; assumption).
-    destruct (node_partition_independent_good sh sh' i j _ _ _ _ _ ps qs Hsh Hsh' Hn Hgood)
+  - destruct (node_partition_independent_good sh sh' i j _ _ _ _ _ ps qs Hsh Hsh' Hn Hgood)
       as (ps1 & qs1 & E1 & E2 & G1).
     destruct (IH i j ps1 qs1 G1) as (ps' & qs' & F1 & F2 & G').
     exists ps', qs'. rewrite par_chain_fused.
     cbn [par_chain next_site] in *. rewrite E1, E2. cbn [obind]. auto.
-  - destruct Hgood as (Hps & Hqs & Hrel). cbn [rel] in Hrel.
+  - destruct Hgood as (Hps & Hqs & Hrel).
     assert (Hp : Permutation (concat (map snd ps)) (concat (map snd qs)))
-      by (rewrite Hrel; apply Permutation_refl).
+      by (eapply rel_perm; [exact Hfl|exact Hrel]).
     destruct (lift_pair_sound sh sh' i j cb a tg tout ps qs Hsh Hsh' Hlaw Hps Hqs Hp)
       as (g & [u1 l1] & [u2 l2] & E1 & E2 & E3 & T1 & T2 & Hperm).
     cbn [fst snd] in T1, T2, Hperm. subst u1 u2.
@@ -719,9 +1049,10 @@ Proof.
     rewrite (seq_sub_SB sh 0 bs site _ Hpl), Hseq. reflexivity.
 Qed.
 
-Lemma good_weaken : forall t c ps qs, good t c ps qs -> good t P ps qs.
+Lemma good_weaken : forall t c ps qs, flat c -> good t c ps qs -> good t P ps qs.
 Proof.
-  intros t c ps qs (H1 & H2 & H3). repeat split; auto. cbn [rel]. eapply rel_perm. exact H3.
+  intros t c ps qs Hfl (H1 & H2 & H3). repeat split; auto. cbn [rel].
+  eapply rel_perm; [exact Hfl|exact H3].
 Qed.
 
 Lemma side_runs : forall sh sh' side tl m m' site site',
@@ -730,13 +1061,13 @@ Lemma side_runs : forall sh sh' side tl m m' site site',
       run_side_mode m sh site side = Ok X /\ run_side_mode m' sh' site' side = Ok Y /\
       good tl P X Y.
 Proof.
-  intros sh sh' side tl m m' site site' Hsh Hsh' (s & bs & c & -> & Hcoh & Hcls).
+  intros sh sh' side tl m m' site site' Hsh Hsh' (s & bs & c & -> & Hcoh & Hcls & Hfl).
   pose proof (chain_sim_refl _ _ _ _ _ Hcls) as Hsim.
   destruct (chain_sim_plain _ _ _ _ _ _ Hsim) as [Hpl _].
   destruct (chain_sim_sound sh sh' Hsh Hsh' _ _ _ _ _ _ Hsim site site' _ _
                             (start_parts_good s m m' Hcoh)) as (X & Y & E1 & E2 & G).
   exists X, Y. split; [apply run_side_mode_eq; assumption|].
-  split; [apply run_side_mode_eq; assumption|]. eapply good_weaken. exact G.
+  split; [apply run_side_mode_eq; assumption|]. eapply good_weaken; [exact Hfl|exact G].
 Qed.
 
 (* ---- the join itself: only the (key, value) reading of each row matters ---- *)
@@ -878,10 +1209,10 @@ Proof.
 Qed.
 
 Lemma ew_chain_cls : forall (opss : list (list dynop)) t t' c,
-    Forall (Forall ew) opss -> tags_ok t (concat opss) = Some t' ->
+    flat c -> Forall (Forall ew) opss -> tags_ok t (concat opss) = Some t' ->
     chain_cls t c (map BStateless opss) t' c.
 Proof.
-  induction opss as [|ops opss IH]; intros t t' c Hew Htags.
+  induction opss as [|ops opss IH]; intros t t' c Hfl Hew Htags.
   - cbn [concat tags_ok] in Htags. injection Htags as <-. apply cc_nil.
   - inversion Hew as [|? ? Hops Hrest]; subst.
     cbn [concat] in Htags. rewrite tags_ok_app in Htags.
@@ -913,7 +1244,7 @@ Lemma elementwise_identical : forall sh sh' s (opss : list (list dynop)) t parts
     = exec_seq sh' t (NB (BSource s) :: map (fun ops => NB (BStateless ops)) opss).
 Proof.
   intros sh sh' s opss t parts Hcoh Hew Htags.
-  pose proof (ew_chain_cls opss (s_tag s) t E Hew Htags) as Hcls.
+  pose proof (ew_chain_cls opss (s_tag s) t E I Hew Htags) as Hcls.
   assert (Hmap : map (fun ops => NB (BStateless ops)) opss = map NB (map BStateless opss))
     by (rewrite map_map; reflexivity).
   rewrite Hmap.
@@ -1042,8 +1373,8 @@ Proof.
     pose proof (lift_typed_b_tail _ _ Hty) as Hty_r.
     assert (IHr : chain_sim t1 c1 r (lift_b (fuse_b r)) t' c')
       by (apply IH; [lia|exact Hr|exact Hty_r]).
-    inversion Hn as [ta ca ops tb Hew Htags | ta tb | ta ca cb tg tb Hlaw | ta ca cb tp tb Hlaw
-                     | ta ca cb lifted tb fanout Hlaw]; subst.
+    destruct b as [s|ops|tin tout|cb tp tg tout lg|cb lifted tin tout fanout|tm pl].
+    + inversion Hn.
     + (* element-wise block: fused with the next block, if any *)
       cbn [fuse_b]. destruct (fuse_b r) as [|b' r'] eqn:Hf.
       * eapply cs_same; [exact Hn|exact IHr].
@@ -1056,20 +1387,23 @@ Proof.
     + (* GroupByKey: lifted away when a lifted combine follows *)
       destruct r as [|x r2].
       * rewrite opt_gbk_other by (intros; discriminate). eapply cs_same; [exact Hn|exact IHr].
-      * destruct x as [s|ops|tin tout|cb tp tg tout lg|cb lifted tin tout fanout|tm pl];
+      * destruct x as [s|ops|tin2 tout2|cb tp tg tout2 lg|cb lifted tin2 tout2 fanout|tm pl];
           try (rewrite opt_gbk_other by (intros; discriminate);
                eapply cs_same; [exact Hn|exact IHr]).
         destruct lg;
           [|rewrite opt_gbk_other by (intros; discriminate); eapply cs_same; [exact Hn|exact IHr]].
         inversion Hr as [|t0 c0 b0 t3 c3 r0 t4 c4 Hn2 Hr2]; subst.
-        assert (Htp : tp = t) by (apply (Hty [] t t1 cb tp tg tout r2); reflexivity). subst tp.
-        inversion Hn2 as [| | |ta ca cb' tp' tb Hlaw|]; subst.
-        cbn [fuse_b lift_b]. apply cs_lift; [exact Hlaw|].
+        assert (Htp : tp = tin) by (apply (Hty [] tin tout cb tp tg tout2 r2); reflexivity).
+        subst tp.
+        assert (Hgbk : tin = t /\ tout = t1 /\ flat c) by (inversion Hn; subst; repeat split; exact I).
+        destruct Hgbk as (-> & -> & Hfl).
+        inversion Hn2 as [| | | | | |ta ca cb' tp' tb Hlaw|]; subst.
+        cbn [fuse_b lift_b]. apply cs_lift; [exact Hfl|exact Hlaw|].
         apply IH; [cbn [length] in Hlen; lia|exact Hr2|].
         apply (lift_typed_b_tail _ _ Hty_r).
     + cbn [fuse_b]. rewrite lift_b_cons_other by exact I. eapply cs_same; [exact Hn|exact IHr].
     + cbn [fuse_b]. rewrite lift_b_cons_other by exact I. eapply cs_same; [exact Hn|exact IHr].
-    + cbn [fuse_b]. rewrite lift_b_cons_other by exact I. eapply cs_same; [exact Hn|exact IHr].
+    + inversion Hn.
 Qed.
 
 Lemma plan_opt_sim : forall chain t c,
@@ -1179,14 +1513,15 @@ Proof.
   exists example_plan, TU, E. split; [|reflexivity]. rewrite Heq.
   apply pc_join.
   - apply vec_source_coherent.
-  - eexists. exists [], E. split; [reflexivity|]. split; [apply vec_source_coherent|apply cc_nil].
+  - eexists. exists [], E. split; [reflexivity|].
+    split; [apply vec_source_coherent|]. split; [apply cc_nil|exact I].
   - eexists. exists [BStateless [op_map_values TKV TKV (ef (FAdd 1%Z)) 150]], E.
-    split; [reflexivity|]. split; [apply vec_source_coherent|].
+    split; [reflexivity|]. split; [apply vec_source_coherent|]. split; [|exact I].
     eapply cc_cons; [|apply cc_nil].
-    apply nc_stateless; [repeat constructor; apply ew_map_values|reflexivity].
-  - eapply cc_cons; [apply nc_stateless; [repeat constructor; apply ew_map|reflexivity]|].
-    eapply cc_cons; [apply nc_cv_pairs; apply count_lawful|].
-    eapply cc_cons; [apply nc_stateless; [repeat constructor; apply ew_map|reflexivity]|].
-    eapply cc_cons; [apply nc_cg; apply count_lawful|].
+    apply nc_stateless; [exact I|repeat constructor; apply ew_map_values|reflexivity].
+  - eapply cc_cons; [apply nc_stateless; [exact I|repeat constructor; apply ew_map|reflexivity]|].
+    eapply cc_cons; [apply nc_cv_pairs; [exact I|apply count_lawful]|].
+    eapply cc_cons; [apply nc_stateless; [exact I|repeat constructor; apply ew_map|reflexivity]|].
+    eapply cc_cons; [apply nc_cg; [exact I|apply count_lawful]|].
     apply cc_nil.
 Qed.
